@@ -27,6 +27,7 @@ const c18NReg = 4
 
 type c18 struct {
 	regs [c18NReg]mapset.Set[int]
+	prev string // the previous op line of the current history
 	st   *Stats
 }
 
@@ -184,6 +185,11 @@ func c18Pairs(ts []string) map[int]int {
 }
 
 func (r *c18) Exec(op []string) string {
+	line := strings.Join(op, " ")
+	if r.prev == "intersects s1 s0" && line == "has s0 1" {
+		r.st.Note("exhaustive-history-case") // the closing queries of genC18Histories
+	}
+	r.prev = line
 	switch op[0] {
 	case "reset":
 		r.regs = [c18NReg]mapset.Set[int]{}
@@ -404,8 +410,37 @@ func genC18Pairs(g *G) {
 	}
 }
 
+// genC18Histories (second audit §1 C18): the small exhaustive HISTORY part — every sequence of at most 3
+// (thorough 4) mutators over the universe {0,1} on the two registers s0, s1 (both nil at the start), so that
+// every mutator is applied to nil / empty / singleton / full / aliased receivers and operands in every order.
+// The state of all registers and the alias matrix are part of every observation; four queries close a case.
+func genC18Histories(g *G) {
+	var muts []string
+	for _, r := range []string{"s0", "s1"} {
+		o := map[string]string{"s0": "s1", "s1": "s0"}[r]
+		muts = append(muts, "add "+r+" 0", "add "+r+" 1", "remove "+r+" 0", "remove "+r+" 1", "clear "+r, "new "+r, "setnil "+r,
+			"pop "+r, "addall "+r+" "+o, "removeall "+r+" "+o, "removeall "+r+" "+r, "clone "+r+" "+o, "intersect "+r+" s0 s1")
+	}
+	tail := []string{"equals s0 s1", "issubset s0 s1", "intersects s1 s0", "has s0 1"}
+	var rec func(prefix []string, depth int)
+	rec = func(prefix []string, depth int) {
+		if len(prefix) > 0 {
+			ops := append([]string{"reset"}, prefix...)
+			g.Each(append(ops, tail...))
+		}
+		if depth == 0 {
+			return
+		}
+		for _, m := range muts {
+			rec(append(slices.Clone(prefix), m), depth-1)
+		}
+	}
+	rec(nil, g.Scale(3, 4))
+}
+
 func genC18(g *G) {
 	genC18Pairs(g)
+	genC18Histories(g)
 	cases := g.Scale(500, 6000)
 	maxOps := g.Scale(60, 250)
 	for c := 0; c < cases; c++ {
